@@ -265,10 +265,15 @@ func (w *World) installProbes() error {
 		elpsutil.Function("snap", lisp.Formals(), w.bSnap),
 		elpsutil.Function("cur-pkg", lisp.Formals(), w.bCurPkg),
 		elpsutil.Function("mark", lisp.Formals("id"), w.bMark),
+		elpsutil.Function("handle", lisp.Formals(), bHandle),
 	)
 	// the same cooperative fault point as a host-registered SPECIAL OPERATOR:
 	// (sim:fpo id expr) decides first, then evaluates expr
 	env.AddSpecialOps(true, elpsutil.Function("fpo", lisp.Formals("id", "expr"), w.bFPO))
+	// (sim:errtext expr): the host's view of an error -- the message and trace
+	// an embedder would log -- turned into a value, so that the message of
+	// EVERY failing form of a program can reach a transcript
+	env.AddSpecialOps(true, elpsutil.Function("errtext", lisp.Formals("expr"), w.bErrText))
 	return nil
 }
 
@@ -355,6 +360,31 @@ func (w *World) bFPO(env *lisp.LEnv, args *lisp.LVal) *lisp.LVal {
 		return r
 	}
 	return env.Eval(args.Cells[1])
+}
+
+func (w *World) bErrText(env *lisp.LEnv, args *lisp.LVal) *lisp.LVal {
+	v := env.Eval(args.Cells[0])
+	if v == nil || v.Type != lisp.LError {
+		return v
+	}
+	var b bytes.Buffer
+	_, _ = (*lisp.ErrorVal)(v).WriteTrace(&b)
+	return lisp.String("host sees: " + (*lisp.ErrorVal)(v).Error() + "\n" + b.String())
+}
+
+// simHandle is what an embedder's native value typically looks like: a Go
+// struct reached through a pointer and holding further pointers.  Nothing an
+// evaluation prints or reports may depend on where any of them lives.
+type simHandle struct {
+	P *int
+	M map[string]*int
+	S []*int
+	F func()
+}
+
+func bHandle(env *lisp.LEnv, args *lisp.LVal) *lisp.LVal {
+	_ = make([]byte, 1+len(args.Cells)) // perturb the allocator a little
+	return lisp.Native(&simHandle{P: new(int), M: map[string]*int{"a": new(int), "b": new(int)}, S: []*int{new(int)}, F: func() {}})
 }
 
 func faultDatum(d string) *lisp.LVal {
